@@ -1,7 +1,7 @@
 # bin/check configuration of property C13 (a single dict expression)
 {'harness': 'c13',
  'props': 'Props/C13.v',
- 'models': ['Model/Pipeline.v'],
+ 'models': ['Model/Pipeline.v', 'Model/Eval.v'],
  'trusted': ['evaluator (ParseNode), json.Marshal, MD5/UUIDv3 and idr.JSONify2-encoding enter the theorems '
              'as Section variables; the node ID allocator (counter, sync.Pool as arbitrary-choice schedule, '
              'recycle) is modelled and its uniqueness invariant proved'],
@@ -15,4 +15,8 @@
                  'content_stable_per_id (guard, DESIGN section 6 F6): the node-JSON cache is only consulted '
                  'for nodes of the record itself',
                  'reader model: flat record lists under one parent with a fixed envelope; '
-                 'EDI/csv2/fixedlength2 occurrence counters are outside the model']}
+                 'EDI/csv2/fixedlength2 occurrence counters are outside the model',
+                 'with the C02 evaluator (Proofs/PipelineC02.v: *_c02 theorems) the evaluator hypotheses '
+                 'eval_cache_transparent / eval_id_renaming / eval_caches_sound are discharged; what remains '
+                 'assumed there is query_valid (the xpath engine returns nodes of the tree it runs on) and '
+                 'determinism of engine, externals and custom functions']}
